@@ -41,11 +41,13 @@ func genGrid(t *rapid.T) Case {
 }
 
 func gridProg(t *rapid.T) *mpcl.Prog {
-	switch lv := gen.Uniform(t, 7, "levels"); {
+	switch lv := gen.Uniform(t, 9, "levels"); {
 	case lv < 3:
 		return gridProg2(t)
 	case lv < 5:
 		return gridProg3(t)
+	case lv < 7:
+		return gridProg4(t)
 	}
 	op := gridOps[gen.Uniform(t, len(gridOps), "op")]
 	ws := gridWidthsQuick
@@ -392,4 +394,67 @@ func gridProg3(t *rapid.T) *mpcl.Prog {
 		Params:  []mpcl.Param{{Name: "a", T: AT}, {Name: "b", T: T}},
 		Results: results, Body: body}}
 	return p
+}
+
+
+var pairOps = []string{"/", "%", "/", "%", "*", "+", "-", "<", "==", ">>"}
+
+// gridProg4 applies the same operator at two widths in one program, in either
+// order:
+//
+//	main(a T, b T) (S, T) { x := S(a) OP S(b); y := a OP b; return x, y }
+//
+// Builders keep per-compilation state (constant wires, tables, scratch
+// vectors); what the first instance leaves behind must not reach the second one
+// (seeded change C09-seed8-c09-1: a cached all-zero vector modified in place by
+// the GMW divider of the narrower division).
+func gridProg4(t *rapid.T) *mpcl.Prog {
+	op := pairOps[gen.Uniform(t, len(pairOps), "op")]
+	lim := 65
+	if op == "/" || op == "%" {
+		lim = 24
+		if ev.Get(prop).Thorough() {
+			lim = 48
+		}
+	}
+	w := rapid.IntRange(3, lim).Draw(t, "w")
+	nw := rapid.IntRange(2, w-1).Draw(t, "nw")
+	signed := rapid.Bool().Draw(t, "signed")
+	T, S := mpcl.Uint(w), mpcl.Uint(nw)
+	if signed {
+		T, S = mpcl.Int(w), mpcl.Int(nw)
+	}
+	a := &mpcl.Expr{Op: mpcl.EVar, T: T, Name: "a"}
+	b := &mpcl.Expr{Op: mpcl.EVar, T: T, Name: "b"}
+	cast := func(e *mpcl.Expr) *mpcl.Expr { return &mpcl.Expr{Op: mpcl.ECast, T: S, A: []*mpcl.Expr{e}} }
+	apply := func(R mpcl.Type, l, r *mpcl.Expr) (*mpcl.Expr, mpcl.Type) {
+		switch op {
+		case "<", "==":
+			return &mpcl.Expr{Op: mpcl.EBin, T: mpcl.Bool(), Name: op, A: []*mpcl.Expr{l, r}}, mpcl.Bool()
+		case ">>":
+			k := rapid.IntRange(0, R.N).Draw(t, "shift")
+			e := &mpcl.Expr{Op: mpcl.EBin, T: R, Name: op, A: []*mpcl.Expr{l,
+				{Op: mpcl.ELit, T: mpcl.Uint(32), Val: itoa(k)}}}
+			return &mpcl.Expr{Op: mpcl.EBin, T: R, Name: "^", A: []*mpcl.Expr{e, r}}, R
+		case "/", "%":
+			// keep the divisor non-zero: (r | 1)
+			one := &mpcl.Expr{Op: mpcl.ELit, T: R, Val: "1"}
+			d := &mpcl.Expr{Op: mpcl.EBin, T: R, Name: "|", A: []*mpcl.Expr{r, one}}
+			return &mpcl.Expr{Op: mpcl.EBin, T: R, Name: op, A: []*mpcl.Expr{l, d}}, R
+		}
+		return &mpcl.Expr{Op: mpcl.EBin, T: R, Name: op, A: []*mpcl.Expr{l, r}}, R
+	}
+	en, RN := apply(S, cast(a), cast(b))
+	ew, RW := apply(T, a, b)
+	sn := &mpcl.Stmt{K: mpcl.SDefine, Name: "x", E: en}
+	sw := &mpcl.Stmt{K: mpcl.SDefine, Name: "y", E: ew}
+	body := []*mpcl.Stmt{sn, sw}
+	if rapid.Bool().Draw(t, "widefirst") {
+		body = []*mpcl.Stmt{sw, sn}
+	}
+	body = append(body, &mpcl.Stmt{K: mpcl.SReturn, Es: []*mpcl.Expr{
+		{Op: mpcl.EVar, T: RN, Name: "x"}, {Op: mpcl.EVar, T: RW, Name: "y"}}})
+	return &mpcl.Prog{Funcs: []*mpcl.Func{{Name: "main",
+		Params:  []mpcl.Param{{Name: "a", T: T}, {Name: "b", T: T}},
+		Results: []mpcl.Type{RN, RW}, Body: body}}}
 }
